@@ -40,9 +40,10 @@ def run(prog: Program, rep: Report, tier: str):
 # ----------------------------------------------------------------------------------------------------------------------
 def _getattr_routes(prog: Program, rep: Report, C: ClassInfo, clause: str):
     """__getattr__: 'getitem_' -> partial(self._call_getitem, ...), 'getall_' -> partial(self._call_getall, ...)."""
-    rep.rule("G9.getattr-routing", "__getattr__ of a subset / concat layer routes names starting with 'getitem_' to _call_getitem and "
-             "names starting with 'getall_' to _call_getall (bound with the looked-up accessor or its name); everything else is "
-             "delegated to the wrapped dataset")
+    rep.rule("G9.getattr-routing", "__getattr__ of a subset / concat layer answers names starting with 'getitem_' with "
+             "partial(self.<per-sample handler>, ...) and names starting with 'getall_' with partial(self.<bulk handler>, ...) - two "
+             "different methods of the class, which the index rules then analyse; everything else is delegated to the wrapped "
+             "dataset")
     fi = C.methods.get("__getattr__")
     if fi is None:
         rep.bad("G9.getattr-routing", C, "__getattr__", f"{C.name} has no __getattr__: item accessors are not intercepted",
@@ -52,19 +53,30 @@ def _getattr_routes(prog: Program, rep: Report, C: ClassInfo, clause: str):
     rep.analysed_add("functions", f"{fi.module.relpath}:{fi.qualname}")
     P = ("param", fi.params()[1])
     seen = {}
-    for n, t in fa.returns():
-        if t is None or t[0] != "call" or not (t[1][0] == "global" and t[1][1].endswith("partial")):
+    # every partial(self.<handler>, ...) built in __getattr__, with the prefix test that dominates it (returned directly or
+    # through a result variable)
+    for n, c in fa.calls():
+        t = fa.sym.term(c, n)
+        if t[0] != "call" or not (t[1][0] == "global" and t[1][1].endswith("partial")):
             continue
         target = t[2][0] if t[2] else None
         prefix = None
-        for c in fa.conds_at(n):
-            if c[0] == "call" and c[1] == ("attr", P, "startswith") and c[2] and c[2][0][0] == "const":
-                prefix = c[2][0][1]
+        for cd in fa.conds_at(n):
+            for x in (cd[1] if cd[0] == "and" else (cd,)):
+                if x[0] == "call" and x[1] == ("attr", P, "startswith") and x[2] and x[2][0][0] == "const":
+                    prefix = x[2][0][1]
         if target is not None and target[0] == "self" and prefix:
             seen[prefix] = target[1]
-    for prefix, handler in (("getitem_", "_call_getitem"), ("getall_", "_call_getall")):
-        rep.decide(seen.get(prefix) == handler, "G9.getattr-routing", fi, f"route:{prefix}", f"'{prefix}*' -> self.{handler}",
-                   f"'{prefix}*' is routed to {seen.get(prefix) or 'nothing'} instead of self.{handler}", clause=clause)
+    routes = {}
+    for prefix, role in (("getitem_", "per-sample"), ("getall_", "bulk")):
+        h = seen.get(prefix)
+        ok = h is not None and h in C.methods and h not in routes.values()
+        if ok:
+            routes[prefix] = h
+        rep.decide(ok, "G9.getattr-routing", fi, f"route:{prefix}", f"'{prefix}*' -> self.{h} (the {role} handler)",
+                   f"'{prefix}*' is routed to {h or 'nothing'}: the {role} accessors are not intercepted by a handler of their own",
+                   clause=clause)
+    return routes
 
 
 def lookups_pure(prog: Program, rep: Report):
@@ -120,8 +132,8 @@ def subset(prog: Program, rep: Report):
              "self.indices")
     C = prog.cls("KDSubset")
     rep.analysed_add("classes", C.qualname)
-    _getattr_routes(prog, rep, C, "C02.1")
-    fi = C.methods.get("_call_getitem")
+    routes = _getattr_routes(prog, rep, C, "C02.1") or {}
+    fi = C.methods.get(routes.get("getitem_", "_call_getitem"))
     rep.require(fi is not None, "anchor-missing: KDSubset._call_getitem")
     fa = fa_of(prog, fi)
     ps = fi.params()
@@ -137,7 +149,7 @@ def subset(prog: Program, rep: Report):
         why = "func(self.indices[idx], *args, **kwargs)" if ok else \
             f"_call_getitem returns {show(t)}: the wrapped accessor is not called with self.indices[idx] of its own index"
     rep.decide(ok, "G5.subset-index", fi, "per-sample", why, why, clause="C02.1")
-    fi = C.methods.get("_call_getall")
+    fi = C.methods.get(routes.get("getall_", "_call_getall"))
     rep.require(fi is not None, "anchor-missing: KDSubset._call_getall")
     fa = fa_of(prog, fi)
     ps = fi.params()
@@ -172,11 +184,11 @@ def concat(prog: Program, rep: Report):
     rep.rule("G9.concat-translation", "_to_concat_idx, _InterleavedConcatDataset.__getitem__ and the installed torch "
              "ConcatDataset.__getitem__ have the same translation summary: negative -> len(self) + idx, part = "
              "bisect_right(cumulative_sizes, idx), local = idx (first part) / idx - cumulative_sizes[part - 1]")
-    prog = prog.raw  # _to_concat_idx is summarised as a unit (and compared with its siblings), not inlined
+    prog = prog.keeping("_to_concat_idx")  # summarised as a unit (and compared with its siblings); other helpers are inlined
     C = prog.cls("KDConcatDataset")
     rep.analysed_add("classes", C.qualname)
-    _getattr_routes(prog, rep, C, "C02.1")
-    fi = C.methods.get("_call_getitem")
+    routes = _getattr_routes(prog, rep, C, "C02.1") or {}
+    fi = C.methods.get(routes.get("getitem_", "_call_getitem"))
     rep.require(fi is not None, "anchor-missing: KDConcatDataset._call_getitem")
     fa = fa_of(prog, fi)
     cfg = fa.cfg
@@ -198,6 +210,7 @@ def concat(prog: Program, rep: Report):
             ok, why = None, f"_call_getitem returns {show(t)[:100]}: accessor lookup of unrecognised shape"
         else:
             problems = []
+            unknown = []
             # all definitions of (part, local) pairs
             pv = part[1] if part[0] == "var" else None
             lv = a0[1] if a0[0] == "var" else None
@@ -218,7 +231,11 @@ def concat(prog: Program, rep: Report):
                             [getattr(e, "id", None) for e in st.targets[0].elts] == [pv, lv] and \
                             fa.sym.term(st.value, n) == ("call", ("self", "_to_concat_idx"), (IDX,), ()) or (
                                 isinstance(st, ast.Assign) and fa.sym.term(st.value, n)[:2] == ("call", ("attr", ("param", ps[0]), "_to_concat_idx")))
-                        if not good:
+                        vt_ = fa.sym.term(st.value, n) if isinstance(st, ast.Assign) else None
+                        if not good and vt_ is not None and vt_[0] == "call" and vt_[1][0] == "var":
+                            unknown.append(f"(part, local) comes from a call through the local '{vt_[1][1]}' (callee chosen at run "
+                                           f"time)")
+                        elif not good:
                             problems.append(f"(part, local) at line {fa.line(n)} is not unpacked from self._to_concat_idx(idx) in "
                                             f"that order")
                         continue
@@ -247,14 +264,14 @@ def concat(prog: Program, rep: Report):
                             problems.append(f"balanced local index {show(lt)[:90]} is not derived from idx / len(self.datasets)")
                     else:
                         problems.append(f"local index {show(lt)[:80]} of unrecognised shape")
-                ok = not problems
+                ok = (not problems) if not (unknown and not problems) else None
                 why = "(part, local) from _to_concat_idx / balanced round-robin over the same part; accessor of that part called " \
-                      "with local" if ok else "; ".join(problems)
+                      "with local" if ok else "; ".join(problems or unknown)
                 if ok and not (t[2][1:] and all(a[0] == "star" for a in t[2][1:])) and len(ps) > 3:
                     pass
     rep.decide(ok, "G5.concat-index", fi, "per-sample", why, why, clause="C02.1")
     # bulk
-    fi = C.methods.get("_call_getall")
+    fi = C.methods.get(routes.get("getall_", "_call_getall"))
     rep.require(fi is not None, "anchor-missing: KDConcatDataset._call_getall")
     fa = fa_of(prog, fi)
     cfg = fa.cfg
